@@ -98,6 +98,8 @@ def run(tier, seed):
             fld = FIELD.get(res.get("modulus"), str(res.get("modulus")))
             if MODULUS.get(want_mod) and fld != MODULUS[want_mod]:
                 bad("name-field:%s" % res["name"], "backend_name %r (field %s) but the field in effect is %s (pre-imported: %s)" % (res["name"], MODULUS[want_mod], fld, preim))
+            if res.get("inverse_in_reported_field") is False and fld in ("bn128", "bls12-381", "curve25519"):
+                bad("field-arithmetic:%s" % res["name"], "backend %r reports the field %s but its fieldinverse does not invert in that field" % (res["name"], fld))
             # a pre-imported variant that configures its base module: the variant is what the user asked for
             variants = [m for m in cfg["preimport"] if m in ("pysnark.zkinterface.backendbellman", "pysnark.zkinterface.backendbulletproofs", "pysnark.libsnark.backendgg")]
             if variants and not res["preimport_errors"] and res["module"] not in cfg["preimport"]:
